@@ -248,7 +248,7 @@ func (w *world) startCall(actor string, c *CallSpec) {
 	n := w.calls
 	srv := w.svc.srv
 	body := append([]byte(nil), c.Body...)
-	w.rec(Ev{K: KCall, C: -1, N: n, Key: c.Key, PCmd: c.Cmd, Body: body, Note: actor, Ref: int(c.Timeout / int64(time.Millisecond))})
+	w.rec(Ev{K: KCall, C: -1, N: n, Key: c.Key, PCmd: c.Cmd, Body: body, Note: actor, D: c.Timeout})
 	simrt.GoNamed("caller:"+actor, "caller", func() {
 		am := service.NewActiveMessage(c.Key, consts.JT808CommandType(c.Cmd), body, time.Duration(c.Timeout))
 		m := srv.SendActiveMessage(am)
